@@ -149,6 +149,19 @@ def main(pid):
                                   "observed": obs[tid - 1]}, signature(alpha, p, cl))
         for tid, step, what in drifts:
             vd.spec_drift("Resolve", f"cfg=Full-sim path={paths[tid-1][0]} step={step} {what}")
+    # beyond the listed properties: the driver loop with USER-SUPPLIED resolvers (ResolveGeneric.tla): TLC checks the
+    # loop's laws for every input and callback outcome table, every input is replayed through the real
+    # resolve_citations with table-driven callbacks, TLC validates the callbacks' own log and the result
+    r = run_tlc("MC_ResolveGeneric", "MC_ResolveGeneric_thorough.cfg" if thorough else "MC_ResolveGeneric_quick.cfg", timeout=1500, coverage=False)
+    tlc_must_pass(r, "MC_ResolveGeneric")
+    ev.add_tlc("MC_ResolveGeneric", r, "MaxLen=%d, outcomes {None, falsy, R1, R2}" % (4 if thorough else 3))
+    gen = [json.loads(json.loads(line[7:-2])) for line in r.out.splitlines() if line.startswith('<<"G", ')]
+    del r
+    gobs = vlib.impl_map("drv_resolve", "run_generic", gen)
+    _, gdrifts = vlib.tlc_judge("Trace_ResolveGeneric", "Trace_ResolveGeneric.cfg", gobs, ev, "generic", chunk=60000)
+    for ix, rest in gdrifts:
+        vd.spec_drift("ResolveGeneric", f"custom resolvers kinds={gobs[ix]['k']} outcomes={gobs[ix]['o']} at{rest} observed={gobs[ix]['g']} raised={gobs[ix]['r']}")
+    ev.cov["generic_resolver_inputs_replayed"] = len(gobs)
     # lists produced by extraction from generated documents (second half of the quantifier of C06-C08)
     import gendocs
     docs = list(gendocs.pairs())
